@@ -143,17 +143,17 @@ def build():
         w.ext_methods['CompilerT.' + m] = dict(
             params={'user_schema': 'Obj', 'global_schema': 'Obj', 'reflection_cache': 'Obj', 'database_config': 'Obj', 'system_config': 'Obj'},
             ghost=REQ, requires=FRESH, returns='Tuple[Obj,Opt[Obj]]' if m == 'compile_serialized_request' else 'Obj',
-            raises={'Exception': {}}, tag='property')
+            raises={'CompileError': {}}, tag='property')
     w.ext_methods['CompilerT.compile'] = dict(   # keyword form used by worker.compile_graphql
         params={'user_schema': 'Obj', 'global_schema': 'Obj', 'reflection_cache': 'Obj', 'database_config': 'Obj', 'system_config': 'Obj', 'request': 'Obj'},
-        ghost=REQ, requires=FRESH, returns='Tuple[Obj,Opt[Obj]]', raises={'Exception': {}}, tag='property')
+        ghost=REQ, requires=FRESH, returns='Tuple[Obj,Opt[Obj]]', raises={'CompileError': {}}, tag='property')
     w.refclass('GqlOp', {'edgeql_ast': 'Obj'})
     w.ext_funcs['graphql.compile_graphql'] = dict(
         params={'std_schema': 'Obj', 'user_schema': 'Obj', 'global_schema': 'Obj', 'database_config': 'Obj', 'system_config': 'Obj'},
         ghost=REQ, requires=['user_schema == unpk(req_usp)', 'global_schema == unpk(req_gsp)', 'database_config == req_dc', 'system_config == req_sc'],
-        returns='GqlOp', raises={'Exception': {}}, tag='property')
+        returns='GqlOp', raises={'CompileError': {}}, tag='property')
     for fn_ in ('edgeql.Source.from_string', 'edgeql.generate_source', 'compiler.CompilationRequest', 'uuidgen.uuid4'):
-        w.ext_funcs[fn_] = dict(params={}, returns='Obj', raises={'Exception': {}})
+        w.ext_funcs[fn_] = dict(params={}, returns='Obj', raises={'CompileError': {}})
     for ex_ in ('COMPILER.state.compilation_config_serializer', 'defines.CURRENT_PROTOCOL', 'compiler.OutputFormat.JSON', 'compiler.InputFormat.JSON'):
         w.opaque_exprs[ex_] = 'Obj'
 
@@ -175,7 +175,7 @@ def build():
         P = dict(SYNC_PARAMS); P.update({'compile_args': 'Seq[Obj]', 'compile_kwargs': 'Map[str,Obj]'})
         w.contract(WORKER, fn, params=P, ghost=REQ, state=CST, returns=ret, modifies=list(CST),
                    requires=WREQ, ensures=HOLDS,
-                   raises={'FailedStateSync': dict(ensures=UNCHANGED), 'Exception': dict(ensures=HOLDS)})
+                   raises={'FailedStateSync': dict(ensures=UNCHANGED), 'CompileError': dict(ensures=HOLDS)})     # CompileError: whatever the compiler raises (own name: cannot mask KeyError etc.)
     # ---- worker.compile_in_tx
     w.define('corr(c, s)', 'c == unpk(s)')       # compiler state object c is the one the pickled state s denotes
     w.ext_methods['Obj.set_root_user_schema'] = dict(params={'schema': 'Obj'}, modifies=['Obj.root_user_schema'], returns='none',
@@ -183,7 +183,7 @@ def build():
     w.ext_methods['CompilerT.compile_serialized_request_in_tx'] = dict(params={'cstate': 'Obj'},
         ghost={'req_state': 'Obj', 'req_usp': 'Obj', 'reuse': 'bool'},
         requires=['corr(cstate, req_state)', 'implies(not reuse, cstate.root_user_schema == unpk(req_usp))'],
-        returns='Tuple[Obj,Obj]', raises={'Exception': {}}, tag='property')
+        returns='Tuple[Obj,Obj]', raises={'CompileError': {}}, tag='property')
     MARK = 'state.REUSE_LAST_STATE_MARKER'
     w.contract(WORKER, 'compile_in_tx',
         params={'dbname': 'Opt[Obj]', 'user_schema': 'Opt[Obj]', 'cstate': 'Obj', 'args': 'Seq[Obj]', 'kwargs': 'Map[str,Obj]'},
@@ -196,7 +196,7 @@ def build():
                   'implies(not reuse and is_none(dbname), not is_none(user_schema) and some(user_schema) == req_usp)',
                   'implies(not reuse and not is_none(dbname), some(dbname) in DBS and DBS[some(dbname)].user_schema == unpk(req_usp))'],
         ensures=['not is_none(LAST_STATE)', 'corr(some(LAST_STATE), result[1])'],     # K re-established for the returned pickled state
-        raises={'Exception': {}})
+        raises={'CompileError': {}, 'PickleError': {}})
 
     # ------------------------------------------------------------------ server: the RPC
     # J is stated for one arbitrary database d (a ghost constant of each pool entry point): equivalent to "for all d", and keeps every VC ground
